@@ -182,6 +182,24 @@ def tlc(workdir, module, cfg, workers=None, timeout=600, extra=None, files=None,
     return res
 
 
+def tlapm(workdir, module, timeout=900):
+    """Checks a TLAPS proof module (spec/proofs/<module> and the specifications it EXTENDS are copied to workdir). Returns the number of proved
+    obligations; an unproved obligation or a tool failure is an infrastructure problem of the specification, never a verdict
+    about the code."""
+    os.makedirs(workdir, exist_ok=True)
+    for f in os.listdir(SPEC):
+        if f.endswith(".tla"):
+            shutil.copy(os.path.join(SPEC, f), workdir)
+    shutil.copy(os.path.join(SPEC, "proofs", module), workdir)    # (proof modules EXTEND TLAPS, which only tlapm's library path has)
+    t0 = time.time()
+    p = run(["tlapm", "--threads", str(NCPU), "--cleanfp", module], cwd=workdir, timeout=timeout)
+    text = p.stdout + p.stderr
+    m = re.search(r"All (\d+) obligations? proved", text)
+    if p.returncode != 0 or not m:
+        raise Infra(f"tlapm did not prove {module}:\n" + text[-2500:])
+    return int(m.group(1)), round(time.time() - t0, 1)
+
+
 def tlc_must_pass(res, what):
     """An exhaustive model run that does not pass is an infrastructure/spec problem of *ours*
     (the model is not the code); it is never reported as a violation of the implementation."""
